@@ -246,8 +246,31 @@ def amount_class(crate, x, e, inner, payload_param):
         return "len(inner)" if lens else "inner"
     if payload_param is not None and payload_param in sl.params():
         return "len(inner)" if lens else "inner"
+    # a value captured by the closure that holds the effect (`let len = buf.len() as u64; inner(buf).map(|()| inc(len))`): classify
+    # what the enclosing function captured
+    ups = [a_ for a_ in sl.atoms if a_[0] == "upvar"]
+    if ups and not lens and "::{closure" in x.name:
+        parent = crate.bodies.get(x.name.rsplit("::{closure", 1)[0])
+        if parent is not None:
+            for i_, j_, st_ in parent.assigns():
+                rv_ = st_["rv"]
+                if rv_["k"] == "agg" and rv_.get("ak") == "closure" and rv_.get("def") == x.name:
+                    kinds = set()
+                    for fn_, op_ in zip(rv_.get("fields", []), rv_.get("ops", [])):
+                        if any(fn_.endswith(u_[1]) for u_ in ups) and "progress" not in fn_:
+                            psl = parent.slice(op_, at=i_)
+                            plens = [c for c in psl.calls if K.meth(c.path) == "len"]
+                            prefs = parent.ref_origins()
+                            if plens and all(any(2 <= tl <= parent.arg_count for tl, tp in prefs.get(operand_local(c.args[0]), ())) for c in plens) and \
+                                    not [c for c in psl.calls if not c.matches(r".*::len", r".*deref.*")]:
+                                kinds.add("len(param)")
+                            else:
+                                kinds.add("?")
+                    if kinds == {"len(param)"}:
+                        return "len(param)"
     if sl.params() and not [c for c in sl.calls if not c.matches(r".*::len", r".*deref.*")]:
-        return "len(param)" if lens else "param"
+        # (`buf.len()` on a slice parameter itself is not a call in MIR but the pointer's metadata)
+        return "len(param)" if lens or ("unop", "PtrMetadata") in sl.atoms else "param"
     if sl.consts() and not sl.params() and not sl.calls:
         return "const"
     return "other"
